@@ -144,6 +144,15 @@ impl<'a, V> BTreeRangeTo<'a, V> {
             Some((k, v)) => btree_view(*old(self).m).contains_key(*k) && *k < old(self).hi && btree_view(*old(self).m)[*k] == *v
                 && forall|k2: u64| btree_view(*old(self).m).contains_key(k2) && k2 < old(self).hi ==> k2 <= *k,
         } { unimplemented!() }
+    /// `rfind` (DoubleEndedIterator): the greatest entry below the bound that the predicate accepts, if any
+    #[verifier::external_body]
+    pub fn rfind<F: FnMut(&(&'a u64, &'a V)) -> bool>(&mut self, f: F) -> (r: Option<(&'a u64, &'a V)>)
+        requires forall|k: &'a u64, v: &'a V| btree_view(*old(self).m).contains_key(*k) && *k < old(self).hi && btree_view(*old(self).m)[*k] == *v ==> f.requires((&(k, v),))
+        ensures match r {
+            None => forall|k: &'a u64, v: &'a V| btree_view(*old(self).m).contains_key(*k) && *k < old(self).hi && btree_view(*old(self).m)[*k] == *v ==> f.ensures((&(k, v),), false),
+            Some((k, v)) => btree_view(*old(self).m).contains_key(*k) && *k < old(self).hi && btree_view(*old(self).m)[*k] == *v && f.ensures((&(k, v),), true)
+                && forall|k2: &'a u64, v2: &'a V| btree_view(*old(self).m).contains_key(*k2) && *k2 < old(self).hi && *k2 > *k && btree_view(*old(self).m)[*k2] == *v2 ==> f.ensures((&(k2, v2),), false),
+        } { unimplemented!() }
 }
 impl<V> HashMap<u64, V> {
     #[verifier::external_body]
